@@ -227,7 +227,7 @@ Proof. destruct (r_timestamp r) as [(a, b)|]; auxf_solve. Qed.
 Definition delack_step (now : Z) (s' s : socket) : Prop :=
   s_ack_delay_timer s' = s_ack_delay_timer s \/
   s_ack_delay_timer s' = ADImmediate \/
-  exists d, s_ack_delay s = Some d /\ s_ack_delay_timer s' = ADWaiting (now + d).
+  (s_ack_delay_timer s = ADIdle /\ exists d, s_ack_delay s = Some d /\ s_ack_delay_timer s' = ADWaiting (now + d)).
 
 Lemma payload_aux cx s ip r payload off s' rep tg :
   tcp_process_payload cx s ip r payload off = Ok (s', rep, tg) ->
@@ -249,7 +249,7 @@ Proof.
   { destruct (s_ack_delay q) as [d|] eqn:Ed; [|split; [apply cfgf_refl | left; reflexivity]].
     destruct (tcp_ack_to_transmit q); [|split; [apply cfgf_refl | left; reflexivity]].
     destruct (s_ack_delay_timer q) eqn:Et; cbn [fst].
-    - split; [cfgf_solve|]. right; right. exists d. split; [exact Ed | rproj; reflexivity].
+    - split; [cfgf_solve|]. right; right. split; [exact Et|]. exists d. split; [exact Ed | rproj; reflexivity].
     - destruct (tcp_immediate_ack_to_transmit q); cbn [fst].
       + split; [cfgf_solve|]. right; left. rproj. reflexivity.
       + split; [apply cfgf_refl | left; reflexivity].
@@ -492,7 +492,7 @@ Theorem step_delack cx s ev s' out tags :
   delack_bounded (cx_now cx) s -> delack_bounded (cx_now cx) s'.
 Proof.
   intros Hev H B. destruct (step_aux _ _ _ _ _ _ Hev H) as ((C1 & _) & [D | D]).
-  - unfold delack_bounded in *. destruct D as [D | [D | (d & Hd & D)]].
+  - unfold delack_bounded in *. destruct D as [D | [D | (_ & d & Hd & D)]].
     + rewrite D, C1. exact B.
     + rewrite D. exact I.
     + rewrite D, C1. exists d. split; [exact Hd | lia].
